@@ -8,6 +8,11 @@ def P(quick_runs, thorough_runs, level="exploration", quick_budget=40, thorough_
     return d
 
 PROPS = {
+    "C07": P(150000, 4000000, expect_reach=["lin.decided", "pool.empty_pops", "pool.blocking_pop_got_unit"],
+             assumptions=["clients respect the producer/consumer counts of the access mode; ABT_pool_remove is issued only by the sole consumer for a unit whose push has returned (API precondition: the unit is in the pool)",
+                          "histories <= 48 operations, search capped at 1e6 nodes (undecided histories are counted, never passed or failed)"]),
+    "C19": P(60000, 1500000, expect_reach=["c19.timeouts", "c19.signal_with_certain_waiter"],
+             assumptions=["deadlines are relative to the run's virtual time scale; TIMEDOUT is checked against the virtual clock, never against elapsed steps"]),
     "C01": P(50000, 1200000, assumptions=["units that create other units finish before streams are joined (a creation racing with the join of the only stream serving the target pool is the program's error)"]),
     "C03": P(60000, 1500000, assumptions=["one joiner per target (API contract); a tasklet joiner only joins targets served by other streams; unbounded yield loops are kept where the strict pool priority of the predefined schedulers cannot starve the awaited unit"]),
     "C05": P(60000, 1500000, expect_reach=["c05.signal_with_certain_waiter", "c05.broadcast_with_certain_waiters"],
